@@ -9,16 +9,32 @@ import (
 	"fmt"
 	"math/rand"
 	"os"
+	"sync"
 	"time"
 
 	"reduction.dev/reduction/batching"
 	"verif/harness/mbt"
 )
 
-type timer struct{ do func() }
+// timer is a harness-owned clocks.Timer. onStop, when set, is called at the start of Stop: it lets the
+// harness hold a flush inside timer.Stop() and issue a concurrent Add (the batcher must keep the two atomic).
+type timer struct {
+	mu     sync.Mutex
+	do     func()
+	onStop func()
+}
 
-func (t *timer) Set(_ time.Duration, do func()) { t.do = do }
-func (t *timer) Stop()                          { t.do = nil }
+func (t *timer) Set(_ time.Duration, do func()) { t.mu.Lock(); t.do = do; t.mu.Unlock() }
+func (t *timer) Stop() {
+	if h := t.onStop; h != nil {
+		h()
+	}
+	t.mu.Lock()
+	t.do = nil
+	t.mu.Unlock()
+}
+func (t *timer) get() func()  { t.mu.Lock(); defer t.mu.Unlock(); return t.do }
+func (t *timer) take() func() { t.mu.Lock(); defer t.mu.Unlock(); d := t.do; t.do = nil; return d }
 
 func main() {
 	in, err := mbt.ReadInput(os.Args[1])
@@ -45,7 +61,7 @@ func main() {
 		next, lastTok := 1, 0
 		var inflight []func()
 		for i := 0; i < ops; i++ {
-			switch k := rng.Intn(11); {
+			switch k := rng.Intn(12); {
 			case k < 4:
 				b.Add(next)
 				events = append(events, map[string]any{"op": "Add", "item": next})
@@ -64,13 +80,45 @@ func main() {
 				events = append(events, map[string]any{"op": "Flush", "tok": tok, "res": got})
 			case k < 9:
 				// the timer goes off: its callback is dispatched now and runs later
-				if tm.do == nil {
+				do := tm.take()
+				if do == nil {
 					events = append(events, map[string]any{"op": "NoExpire"})
 					break
 				}
-				inflight = append(inflight, tm.do)
-				tm.do = nil
+				inflight = append(inflight, do)
 				events = append(events, map[string]any{"op": "Expire"})
+			case k < 10:
+				// a flush held inside timer.Stop() while another goroutine adds an item: Flush and Add are each
+				// one atomic step of the batcher, so the Add waits for the flush (events: Flush, then Add)
+				entered, release := make(chan struct{}), make(chan struct{})
+				var once sync.Once
+				tm.onStop = func() { once.Do(func() { close(entered); <-release }) }
+				var got []int
+				fdone, adone := make(chan struct{}), make(chan struct{})
+				go func() { got = b.Flush(batching.CurrentBatch); close(fdone) }()
+				select {
+				case <-entered:
+				case <-fdone: // nothing to flush: Stop is not reached
+				}
+				item := next
+				next++
+				go func() { b.Add(item); close(adone) }()
+				select {
+				case <-adone:
+				case <-time.After(2 * time.Millisecond):
+				}
+				close(release)
+				<-fdone
+				<-adone
+				tm.onStop = nil
+				if got == nil {
+					got = []int{}
+				}
+				if len(got) > 0 {
+					lastTok++
+				}
+				events = append(events, map[string]any{"op": "Flush", "tok": -1, "res": got})
+				events = append(events, map[string]any{"op": "Add", "item": item})
 			default:
 				if len(inflight) == 0 {
 					break
